@@ -55,11 +55,12 @@ const (
 	kTryRLock
 	kNow
 	kSleep
+	kSpawn
 	nKinds
 )
 
 var kindNames = [...]string{"start", "exit", "yield", "stamp", "choose", "lock", "unlock", "rwcommit", "rwacquire", "rwunlock",
-	"rlock", "runlock", "poolget", "poolput", "onceenter", "oncedone", "wgadd", "wgwait", "condwait", "condsignal", "condbroadcast", "mapop", "note", "trylock", "tryrlock", "now", "sleep"}
+	"rlock", "runlock", "poolget", "poolput", "onceenter", "oncedone", "wgadd", "wgwait", "condwait", "condsignal", "condbroadcast", "mapop", "note", "trylock", "tryrlock", "now", "sleep", "spawn"}
 
 func (k kind) String() string { return kindNames[k] }
 
@@ -98,8 +99,10 @@ type task struct {
 	panicked bool
 	lastAcq  uint64 // task-owned: seq of the last lock grant
 	prio     int
-	condGen  int   // scheduler-owned: set when a cond wait has been signalled
-	wakeAt   int64 // scheduler-owned: simulated time at which a sleeping task may continue
+	condGen  int    // scheduler-owned: set when a cond wait has been signalled
+	wakeAt   int64  // scheduler-owned: simulated time at which a sleeping task may continue
+	spawned  bool   // started by the library under test through a go statement (simshim.Go), not by the harness
+	startSem uint64 // race-detector address: the go statement happens before the first statement of the new goroutine
 }
 
 // Pool behaviour for one simulation.
@@ -182,6 +185,10 @@ type Stats struct {
 	Sleeps        int
 	SimNanos      int64 // simulated time that passed during the run
 	SleepSkips    int   // the clock was moved to the earliest wake-up because every live task slept
+	Spawns        int   // goroutines the library started (go statements, AfterFunc timers), each a task of the scheduler
+	SpawnLeaps    int   // the clock was moved to a sleeping task's wake-up although other tasks were runnable (they were 'slow')
+	DrainSteps    int   // steps taken by library goroutines after the last harness task had finished
+	DaemonsLeft   int   // library goroutines still parked (sleeping, waiting) when the run ended; they are unwound
 	Notes         map[string]int
 }
 
@@ -252,6 +259,9 @@ type Sim struct {
 	now     int64 // simulated time, ns
 	lastRd  int64
 	start   int64
+	live    int
+	roots   int // harness tasks not finished yet
+	launch  chan *task
 }
 
 var (
@@ -455,6 +465,27 @@ func (s *Sim) apply(t *task) resp {
 		out.n = int(rd)
 	case kSleep:
 		// the wake-up time was fixed when the request arrived; nothing to do at the grant
+	case kSpawn:
+		// a go statement of the library under test: the new goroutine is one more task of this scheduler. It is started by
+		// the launcher goroutine (which has acquired nothing from any task), parks at its first scheduling point like
+		// every task, and runs only when chosen.
+		nt := &task{id: len(s.tasks), name: fmt.Sprintf("%s.go%d", t.name, len(s.tasks)), sim: s, fn: r.x.(func()), wake: make(chan resp), spawned: true}
+		if s.cfg.Policy == PolicyPCT {
+			nt.prio = 1 + s.ch.Intn(s.cfg.PCTDepth+1+len(s.tasks), "pctspawn")
+		}
+		s.tasks = append(s.tasks, nt)
+		s.live++
+		s.res.Spawns++
+		obj = nt.id
+		raceDisable()
+		s.launch <- nt
+		q := <-s.reqCh
+		raceEnable()
+		if q.t != nt || q.k != kStart {
+			fmt.Fprintf(os.Stderr, "simsync: unexpected request while a spawned task was starting (a goroutine outside the simulator?)\n")
+			os.Exit(2)
+		}
+		nt.pending, nt.hasReq = q, true
 	case kChoose:
 		out.n = s.ch.Intn(r.n, r.label)
 		obj = out.n
@@ -739,6 +770,23 @@ func (s *Sim) Run() *Result {
 		}
 		sort.Ints(s.pctAt)
 	}
+	s.launch = make(chan *task)
+	go func(c chan *task) {
+		for {
+			raceDisable()
+			nt, ok := <-c
+			raceEnable()
+			if !ok {
+				return
+			}
+			go nt.main()
+		}
+	}(s.launch)
+	defer func() {
+		raceDisable()
+		close(s.launch)
+		raceEnable()
+	}()
 	for _, t := range s.tasks {
 		go t.main()
 	}
@@ -749,8 +797,9 @@ func (s *Sim) Run() *Result {
 		r.t.pending, r.t.hasReq = r, true
 	}
 	en := make([]*task, 0, n)
-	live := n
-	for live > 0 {
+	s.live, s.roots = n, n
+	drainSkips := 0
+	for s.live > 0 {
 		atomic.AddInt64(&progress, 1)
 		en = en[:0]
 		for _, t := range s.tasks {
@@ -766,19 +815,50 @@ func (s *Sim) Run() *Result {
 					wake = t.wakeAt
 				}
 			}
+			if wake >= 0 && s.roots == 0 {
+				// only goroutines of the library are left, and they sleep (a janitor, a pending timer): a few more wake-ups
+				// are granted so that deferred work that was due shortly after the last call still happens, then the run ends
+				if drainSkips++; drainSkips > 4 {
+					s.res.DaemonsLeft = s.live
+					s.abortAll(&s.live)
+					break
+				}
+			}
 			if wake >= 0 {
 				s.now = wake
 				s.res.SleepSkips++
 				continue
 			}
+			if s.roots == 0 {
+				// every harness task has finished; what is left are goroutines of the library that wait for work
+				// that will never come: daemons, not a deadlock
+				s.res.DaemonsLeft = s.live
+				s.abortAll(&s.live)
+				break
+			}
 			s.res.Deadlock = true
 			s.res.DeadlockMsg = s.describeBlocked()
-			s.abortAll(&live)
+			s.abortAll(&s.live)
 			break
+		}
+		if s.cfg.Clock != ClockFrozen {
+			// sleeping tasks whose time has not come: the runnable ones may be slow (descheduled, on a loaded machine) for
+			// that long, so now and then the clock moves to the earliest wake-up although others could run
+			var wake int64 = -1
+			for _, t := range s.tasks {
+				if !t.done && t.hasReq && t.pending.k == kSleep && t.wakeAt > s.now && (wake < 0 || t.wakeAt < wake) {
+					wake = t.wakeAt
+				}
+			}
+			if wake >= 0 && coin(s.ch, 60, "sleepleap") {
+				s.now = wake
+				s.res.SpawnLeaps++
+				continue
+			}
 		}
 		if s.res.Steps >= s.cfg.StepCap {
 			s.res.StepCapHit = true
-			s.abortAll(&live)
+			s.abortAll(&s.live)
 			break
 		}
 		if s.cfg.StallTask >= 0 && s.res.Steps == s.cfg.StallFrom {
@@ -797,7 +877,10 @@ func (s *Sim) Run() *Result {
 			}
 		}
 		t := s.pick(en)
-		if nEn < live {
+		if s.roots == 0 {
+			s.res.DrainSteps++
+		}
+		if nEn < s.live {
 			// someone is alive but not enabled: count lock waits
 			for _, o := range s.tasks {
 				if !o.done && o.hasReq && o != t && !s.enabled(o) {
@@ -845,7 +928,10 @@ func (s *Sim) Run() *Result {
 		if r.k == kExit {
 			raceAcquire(unsafe.Pointer(&t.join))
 			t.done = true
-			live--
+			s.live--
+			if !t.spawned {
+				s.roots--
+			}
 			continue
 		}
 		if r.k == kCondWait {
